@@ -19,46 +19,66 @@ Record cstate := mkC {
   c_sub : sub;            (* the object's fields *)
   c_ph : phase;
   c_inw : bool;           (* has an entry in Subprocess._waiting *)
-  c_calls : list logev    (* what this object's callbacks have logged *)
+  c_calls : list logev;   (* what this object's callbacks have logged *)
+  c_late : list (cbk * Z) (* callback(returncode) calls pending on the IOLoop (registrations made after the report) *)
 }.
 
-Definition cinit (pid : Z) : cstate := mkC (mkSub pid None None []) PhRun false [].
+Definition cinit (pid : Z) : cstate := mkC (mkSub pid None None []) PhRun false [] [].
 
 (* _try_cleanup_process(own pid) *)
 Definition ctry (c : cstate) : cstate :=
   match c_ph c with
-  | PhZombie st => if c_inw c then mkC (c_sub c) (PhQueued st) false (c_calls c) else c
+  | PhZombie st => if c_inw c then mkC (c_sub c) (PhQueued st) false (c_calls c) (c_late c) else c
   | _ => c
   end.
 
-Definition creg (mk : sub -> sub) (c : cstate) : cstate :=
-  ctry (mkC (mk (c_sub c)) (c_ph c) true (c_calls c)).
+(* set_exit_callback: returncode already known -> queue callback(returncode); else store, enter _waiting, probe *)
+Definition creg (prep : sub -> sub) (cbof : sub -> cbk) (c : cstate) : cstate :=
+  let s := c_sub c in
+  match s_rc s with
+  | Some rc => mkC (prep s) (c_ph c) (c_inw c) (c_calls c) (c_late c ++ [(cbof s, rc)])
+  | None => ctry (mkC (set_cb (cbof s) (prep s)) (c_ph c) true (c_calls c) (c_late c))
+  end.
 
 (* _set_returncode(st) *)
 Definition creport (sid : nat) (st : Z) (c : cstate) : cstate :=
   let s := c_sub c in
   match decode st with
-  | None => mkC s (PhReported st) (c_inw c) (c_calls c ++ [LAssert sid])
+  | None => mkC s (PhReported st) (c_inw c) (c_calls c ++ [LAssert sid]) (c_late c)
   | Some rc =>
       match s_cb s with
-      | None => mkC (mkSub (s_pid s) None (Some rc) (s_futs s)) (PhReported st) (c_inw c) (c_calls c)
+      | None => mkC (mkSub (s_pid s) None (Some rc) (s_futs s)) (PhReported st) (c_inw c) (c_calls c) (c_late c)
       | Some cb =>
           let '(s3, evs) := invoke sid (mkSub (s_pid s) None (Some rc) (s_futs s)) cb rc in
-          mkC s3 (PhReported st) (c_inw c) (c_calls c ++ evs)
+          mkC s3 (PhReported st) (c_inw c) (c_calls c ++ evs) (c_late c)
       end
   end.
+
+(* the pending callback(returncode) calls run, oldest first *)
+Fixpoint run_lates (sid : nat) (s : sub) (calls : list logev) (l : list (cbk * Z)) : sub * list logev :=
+  match l with
+  | [] => (s, calls)
+  | (cb, rc) :: l' => let '(s3, evs) := invoke sid s cb rc in run_lates sid s3 (calls ++ evs) l'
+  end.
+Definition crun_late (sid : nat) (c : cstate) : cstate :=
+  let '(s, calls) := run_lates sid (c_sub c) (c_calls c) (c_late c) in
+  mkC s (c_ph c) (c_inw c) calls [].
+
+(* one IOLoop turn *)
+Definition cloop (sid : nat) (c : cstate) : cstate :=
+  crun_late sid (match c_ph c with PhQueued st => creport sid st c | _ => c end).
 
 Definition cstep (sid : nat) (c : cstate) (e : event) : cstate :=
   match e with
   | ESpawn _ => c
   | EExit p st =>
       if p =? s_pid (c_sub c) then
-        match c_ph c with PhRun => mkC (c_sub c) (PhZombie st) (c_inw c) (c_calls c) | _ => c end
+        match c_ph c with PhRun => mkC (c_sub c) (PhZombie st) (c_inw c) (c_calls c) (c_late c) | _ => c end
       else c
   | ESigchld => if c_inw c then ctry c else c
-  | EReg s l => if Nat.eqb s sid then creg (set_cb (CbPlain l)) c else c
-  | EWait s l re => if Nat.eqb s sid then creg (add_fut l re) c else c
-  | ELoop => match c_ph c with PhQueued st => creport sid st c | _ => c end
+  | EReg s l => if Nat.eqb s sid then creg prep_plain (cb_plain l) c else c
+  | EWait s l re => if Nat.eqb s sid then creg (prep_fut l) (cb_fut l re) c else c
+  | ELoop => cloop sid c
   end.
 
 (* ---------- trace vocabulary ---------- *)
@@ -109,12 +129,11 @@ Definition is_sigchld (e : event) : bool := match e with ESigchld => true | _ =>
 Definition is_loop (e : event) : bool := match e with ELoop => true | _ => false end.
 
 (* ---------- vocabulary of the statements ---------- *)
-(* statuses of the pending _set_returncode calls of object sid in the IOLoop queue *)
-Definition qstat (sid : nat) (q : list (nat * Z)) : list Z :=
-  map snd (filter (fun x => Nat.eqb (fst x) sid) q).
+(* the pending IOLoop calls that concern object sid *)
+Definition qfilter (sid : nat) (q : list qitem) : list qitem :=
+  filter (fun x => Nat.eqb (q_sid x) sid) q.
 
-
-(* what the kernel table / the queue hold for a child in a given phase *)
+(* what the kernel table / the queue hold for a child in a given state *)
 Definition kst_of (ph : phase) : kst :=
   match ph with
   | PhRun => KRun
@@ -122,8 +141,9 @@ Definition kst_of (ph : phase) : kst :=
   | PhQueued st => KReaped st
   | PhReported st => KReaped st
   end.
-Definition q_of (ph : phase) : list Z := match ph with PhQueued st => [st] | _ => [] end.
-
+Definition q_of (sid : nat) (c : cstate) : list qitem :=
+  match c_ph c with PhQueued st => [QSet sid st] | _ => [] end ++
+  map (fun x => QCall sid (fst x) (snd x)) (c_late c).
 
 (* callback cb was registered on object sid somewhere in the trace *)
 Definition reg_ok (sid : nat) (es : list event) (cb : cbk) : Prop :=
@@ -137,34 +157,45 @@ Definition cb_done (cb : cbk) (rc : Z) (futs : list (nat * fut)) : Prop :=
   | CbFut l i re => nth_error futs i = Some (l, resolve re rc)
   | CbPlain _ => True
   end.
-Definition others_pending (cb : cbk) (futs : list (nat * fut)) : Prop :=
-  forall j x, nth_error futs j = Some x -> snd x <> FPending -> exists l re, cb = CbFut l j re.
 Definition all_pending (futs : list (nat * fut)) : Prop := Forall (fun x => snd x = FPending) futs.
+
+(* every resolved future holds what wait_for_exit's rule says, and its callback is in the log *)
+Definition fut_ok (sid : nat) (r : list event) (rc : Z) (log : list logev) (futs : list (nat * fut)) : Prop :=
+  forall j l f, nth_error futs j = Some (l, f) -> f <> FPending ->
+    exists re, f = resolve re rc /\ In (EWait sid l re) r /\ In (LCall sid l rc) log.
 
 Definition is_reg_of (sid : nat) (e : event) : Prop :=
   match reg_label sid e with Some _ => True | None => False end.
 
+Definition call_labels (log : list logev) : list nat :=
+  flat_map (fun e => match e with LCall _ l _ => [l] | _ => [] end) log.
+Definition all_calls (sid : nat) (rc : Z) (log : list logev) : Prop :=
+  Forall (fun e => exists l, e = LCall sid l rc) log.
+(* labels of the callback(returncode) calls of object sid still pending on the IOLoop *)
+Definition late_labels (sid : nat) (q : list qitem) : list nat :=
+  flat_map (fun x => match x with QCall s c _ => if Nat.eqb s sid then [cb_label c] else [] | QSet _ _ => [] end) q.
 
-(* what can be observed of one object, in every reachable world *)
-Inductive child_report (sid : nat) (p : Z) (r : list event) (log : list logev) (sb : sub) : Prop :=
+(* what can be observed of one object, in every reachable world (log = its part of the callback log, q = the IOLoop queue) *)
+Inductive child_report (sid : nat) (p : Z) (r : list event) (log : list logev) (q : list qitem) (sb : sub) : Prop :=
 | CR_nothing :                     (* not (yet) reported *)
-    log = [] -> s_rc sb = None -> all_pending (s_futs sb) -> child_report sid p r log sb
-| CR_called st rc cb :             (* reported once, with the decoded status of the child's first exit *)
+    log = [] -> s_rc sb = None -> all_pending (s_futs sb) -> late_labels sid q = [] -> child_report sid p r log q sb
+| CR_called st rc cb rest :        (* reported: every invocation carries the decoded status of the child's first exit;
+                                      the invocations made and still queued are, in order, the registration that was in
+                                      place when _set_returncode ran followed by every later registration *)
     first_exit p r = Some st -> decode st = Some rc ->
-    log = [LCall sid (cb_label cb) rc] -> s_rc sb = Some rc ->
-    reg_ok sid r cb -> cb_done cb rc (s_futs sb) -> others_pending cb (s_futs sb) ->
-    child_report sid p r log sb
+    log = LCall sid (cb_label cb) rc :: rest -> all_calls sid rc log -> s_rc sb = Some rc ->
+    reg_ok sid r cb -> cb_done cb rc (s_futs sb) -> fut_ok sid r rc log (s_futs sb) ->
+    (exists dropped, reg_labels sid r = dropped ++ call_labels log ++ late_labels sid q) ->
+    child_report sid p r log q sb
 | CR_assert st :                   (* stopped/continued-shaped status: `assert os.WIFEXITED(status)` failed *)
     first_exit p r = Some st -> decode st = None ->
-    log = [LAssert sid] -> s_rc sb = None -> all_pending (s_futs sb) -> child_report sid p r log sb.
+    log = [LAssert sid] -> s_rc sb = None -> all_pending (s_futs sb) -> late_labels sid q = [] -> child_report sid p r log q sb.
 
-
-(* reported exactly once, with the decoded status; the future (if any) resolved by the rule *)
+(* reported: the callback in place ran first, with the decoded status; its future (if any) resolved by the rule *)
 Definition exactly_once (es : list event) (sid : nat) (r : list event) (st : Z) : Prop :=
   exists sb, nth_error (w_subs (run es)) sid = Some sb /\
     match decode st with
-    | Some rc => exists cb, calls_of sid (w_log (run es)) = [LCall sid (cb_label cb) rc] /\ s_rc sb = Some rc /\
-                            reg_ok sid r cb /\ cb_done cb rc (s_futs sb) /\ others_pending cb (s_futs sb)
+    | Some rc => exists cb rest, calls_of sid (w_log (run es)) = LCall sid (cb_label cb) rc :: rest /\ s_rc sb = Some rc /\
+                                 reg_ok sid r cb /\ cb_done cb rc (s_futs sb)
     | None => calls_of sid (w_log (run es)) = [LAssert sid] /\ s_rc sb = None
     end.
-
